@@ -206,6 +206,7 @@ func init() {
 					panic(err)
 				}
 				cs := &c05Case{A: j.A, B: j.B, Leaf: j.Leaf}
+				c.Pending(cs)
 				c05Run(cs, py)
 				emit(cs)
 			}
@@ -220,6 +221,7 @@ func init() {
 			L := []int{64, 100, 128}[r.Intn(3)]
 			a, b := c05Pair(r, L)
 			cs := &c05Case{A: a, B: b, Leaf: uint32(L)}
+			c.Pending(cs)
 			c05Run(cs, py)
 			emit(cs)
 		}
